@@ -1321,7 +1321,34 @@ func (sc *scenario) runFaults(maxOps int) {
 		k := 1 + r.Intn(8)
 		for i := 0; i < k; i++ {
 			target := fmt.Sprintf("peer%d", i)
-			switch r.Intn(6) {
+			switch r.Intn(9) {
+			case 8: // late reject: a VALID competitor to the host's tip followed by a block broken in one way — the
+				// candidate is rejected only after its first block has been accepted
+				base := a.AllBlocks()
+				if len(base) < 3 {
+					continue
+				}
+				c1 := sc.mutate(a, base, len(base)-1, pick(r, []string{"ok-fee", "yield-listed", "removed-listed"}), 1)
+				if c1 == nil {
+					continue
+				}
+				c2 := sc.mutate(a, c1, len(c1)-1, pick(r, []string{"no-reward", "two-rewards", "bad-ts", "reward-plus1", "tx-future"}), r.Intn(2))
+				if c2 == nil {
+					continue
+				}
+				nb = append(nb, trace.Serving(target, "late-reject", c2, S.BlocksLimit))
+			case 6: // stale / truncated: a valid PREFIX of the host's own chain (never better)
+				base := a.AllBlocks()
+				if len(base) < 2 {
+					continue
+				}
+				nb = append(nb, trace.Serving(target, "stale", base[:1+r.Intn(len(base)-1)], S.BlocksLimit))
+			case 7: // equal: the host's own chain (valid, not better)
+				base := a.AllBlocks()
+				if len(base) < 1 {
+					continue
+				}
+				nb = append(nb, trace.Serving(target, "equal", base, S.BlocksLimit))
 			case 0:
 				nb = append(nb, trace.Neighbour{Target: target, Kind: "error", Answer: func(uint64, int) ([]byte, error) { return nil, fmt.Errorf("down") }})
 			case 1:
@@ -1347,8 +1374,9 @@ func (sc *scenario) runFaults(maxOps int) {
 		now := sc.clock + int64(r.Intn(3))*S.Interval
 		v, _ := w.Sync(a, now, nb)
 		after, _, _ := a.Observe()
-		m := v.Info["sync"]
-		if m != "extension" && m != "resync" && m != "tipswap" {
+		// "mustkeep": every admissible outcome of the round leaves the ledger unchanged (map order decides between
+		// admissible selections, so the mode of one outcome is not enough)
+		if v.Info["mustkeep"] == "true" {
 			jb, _ := json.Marshal([]interface{}{before.Chain, before.ById, before.ByAddr, before.Registered, before.Pending, before.Pool})
 			ja, _ := json.Marshal([]interface{}{after.Chain, after.ById, after.ByAddr, after.Registered, after.Pending, after.Pool})
 			if string(ja) != string(jb) {
